@@ -40,8 +40,34 @@ fn inflate(src: Bytes) -> io::Result<Block> {
     let mut block = Block::default();
     #[cfg(noodles_verif)]
     crate::verif::hit(crate::verif::Site::AsyncInflateTaskStart, &src);
+    validate_frame_size(&src)?;
     parse_block(&src, &mut block)?;
     #[cfg(noodles_verif)]
     crate::verif::hit(crate::verif::Site::AsyncInflateTaskEnd, &src);
     Ok(block)
+}
+
+// Like the synchronous frame reader, a block size that cannot hold a block header and trailer is
+// invalid, and a frame that is shorter than its block size is the truncated end of the stream.
+fn validate_frame_size(src: &[u8]) -> io::Result<()> {
+    use crate::{BGZF_HEADER_SIZE, gz};
+
+    const MIN_FRAME_SIZE: usize = BGZF_HEADER_SIZE + gz::TRAILER_SIZE;
+
+    let Some(buf) = src.get(BGZF_HEADER_SIZE - 2..BGZF_HEADER_SIZE) else {
+        return Err(io::Error::from(io::ErrorKind::UnexpectedEof));
+    };
+
+    let block_size = usize::from(u16::from_le_bytes([buf[0], buf[1]])) + 1;
+
+    if block_size < MIN_FRAME_SIZE {
+        Err(io::Error::new(
+            io::ErrorKind::InvalidData,
+            "invalid frame size",
+        ))
+    } else if src.len() < block_size {
+        Err(io::Error::from(io::ErrorKind::UnexpectedEof))
+    } else {
+        Ok(())
+    }
 }
